@@ -37,9 +37,10 @@ ASSUMPTIONS = [
     "the hand-over model describes the state after the last iteration; which root hooks have an implementation that "
     "returns a value is observed on the solved objects (data of the model), the C3 MRO (issubclass) is an input",
     "shapely: area is invariant under `rotate` (entry rotation of a roll pass) - checked numerically only",
-    "non-root explicit values of an out profile are copied from the in profile of the FIRST solve call; values that "
-    "change between iterations without being root hooks of the receiving profile (velocity) are compared within the "
-    "iteration precision only",
+    "the model is the state after the last iteration: values that depend on the iteration history - root hooks of IN "
+    "profiles (velocity; evaluated after the sub-units were solved) and root hooks owned only by a sub-class (velocity, "
+    "filling ratios, width of the spreading model; copied downstream at the first solve call and not refreshed there) - "
+    "are left out of the model/implementation comparison (counted in the evidence); they are not part of the statement",
 ]
 
 P = "roll_pass/hookimpls/profile.py"
@@ -284,6 +285,10 @@ def gen_units(rng, depth, st, want):
     last_type = None
     for i in range(want):
         r = rng.random()
+        if rng.random() < 0.12 and i < want - 1 and not st["three"] and last_type != "rotator":
+            units.append({"type": "rotator", "rotation": rng.choice([None, 90, 45, 0])})
+            last_type = "rotator"
+            continue
         if depth < 2 and r < 0.22 and want > 1:
             sub = gen_units(rng, depth + 1, st, rng.randrange(1, 4))
             if sub:
@@ -293,10 +298,6 @@ def gen_units(rng, depth, st, want):
         if i > 0 and last_type == "pass" and r < 0.75:
             units.append(gen_transport(rng, after_pass=True))
             last_type = "transport"
-            continue
-        if r < 0.10 and i < want - 1 and not st["three"]:
-            units.append({"type": "rotator", "rotation": rng.choice([None, 90, 45, 0])})
-            last_type = "rotator"
             continue
         if r > 0.93 and last_type in ("seq", "transport"):
             units.append(gen_transport(rng, after_pass=False))
@@ -832,8 +833,8 @@ def run(ctx):
             # the concrete failing input (hand-over so broken that no solved sequence exists to look at)
             ctx.violation("known-good-sequence-does-not-solve", "a sequence that solves on the unchanged tree raises "
                           + getattr(ctx, "last_solve_error", "?"), {"spec": spec})
-    # (the extended search after a broken tie multiplies budgets by 5: 600 / 7500 sequences)
-    n = ctx.budget(330, 6000) if not ctx.extended else ctx.budget(120, 1500)
+    # (the extended search after a broken tie multiplies budgets by 5: 600 / 6000 sequences)
+    n = ctx.budget(330, 4500) if not ctx.extended else ctx.budget(120, 1200)
     for i in range(n):
         spec = gen_case(rng)
         ok = run_case(ctx, spec, lines, pending)
